@@ -16,8 +16,8 @@ def _fractional_matrix_power(C, power, **kwargs):
     svd = _SVD(n_modes="all", **kwargs)
     _, s, V = svd.fit_transform(C)
 
-    # cut off small singular values
-    is_above_zero = s > np.finfo(s.dtype).eps
+    # cut off singular values that are zero relative to the largest one
+    is_above_zero = s > np.finfo(s.dtype).eps * max(C.shape) * s.max()
     V = V[:, is_above_zero]
     s = s[is_above_zero]
 
